@@ -693,6 +693,11 @@ Quiet(ms) == QuietOK(ms) /\ UNCHANGED bvars
 \* exactly the ones this specification holds (filter as subscribed, granted QoS), and it has a stored session; a connection the
 \* specification has up is registered.  (Clients only one side sees online - a socket the broker is still tearing down - and
 \* sessions within their expiry window are not compared.)
+\* ... and the retained store as RetainedService.Iterate shows it holds exactly the last non-empty retained publication of every
+\* topic (payload tag, QoS) - C07 at the level of the state, not only through what a later subscriber is sent
+RetainedViewOK(vret) ==
+  {[t |-> x.t, tag |-> x.tag, q |-> x.q] : x \in SeqToSet(vret)} = {[t |-> t, tag |-> ret[t].tag, q |-> ret[t].qos] : t \in DOMAIN ret}
+
 ViewOK(vsubs, vonline, vsessions) ==
   LET both == {c \in SeqToSet(vonline) : Online(c)}
       real == {[c |-> x.c, n |-> x.n, q |-> x.q] : x \in {y \in SeqToSet(vsubs) : y.c \in both}}
